@@ -47,6 +47,33 @@ CLAIMS.update({
    note="The inspection happens inside free(), i.e. after the library's wipe and before release."),
 })
 
+CLAIMS.update({
+ "C08": dict(cat="exploration", tech="TLA+ footprint contract (FootTrace.tla) decided by TLC on machine-level traces from valgrind/lackey", ref="5 C08",
+   text="The complete sequence of instruction addresses and load/store addresses of every public call (cut at marker functions) is recorded from the shipped binary under valgrind/lackey for several secret assignments (all-0xFF, all-zero, seeded random) with identical public parameters, on every back end; FootTrace.tla, checked by TLC, accepts iff the footprint digest is a function of the call's public view. TLA+ contributes the precise definition of 'public' and the function-ness check; the recorder does the heavy lifting.",
+   note="Secret sampling; instruction/address level only (no micro-architectural effects); valgrind's CPUID = host's. The harness keeps its own allocation pattern and path lengths data-independent so that address traces are comparable."),
+ "C09": dict(cat=MC, tech=TV, ref="5 C09",
+   text="MC_Mem.tla: flat byte arena, every placement/overlap of input and output windows for single-block calls and exact aliasing for bulk calls: result = F(pre-state input) and frame condition; a store-as-you-go variant must fail. On the code every pointer argument is placed flush against PROT_NONE pages (end and start) and at alignments 0..31 in canary arenas that are compared after each call; every overlap offset for every single-block function; every accepted key/tweak/counter length at the guard; bulk calls 0..17 blocks in and out of place; every back end plus the byte-wise build; all outputs validated by TLC against the alignment-free specification.",
+   note="Reads that stay inside mapped unguarded memory are invisible here (C08's address traces see them)."),
+ "C11": dict(cat="exploration", tech="trace identity under memory/compiler perturbation against a TLC-validated deterministic contract", ref="5 C11",
+   text="The contract (SkinnyTrace/Contract) is deterministic (MC_Det checks the position machine has one successor per call), so any dependence on uninitialised memory that reaches an observable shows as a trace that differs from the validated reference. The scenario sets of C01-C07, C10 (every in-between key length), C14 run with painted stacks (0x00/0xFF/0xA5/ramp), pre-filled handles, fresh/poisoned heap, in separate processes, under gcc -O0/-O3 and clang -O2 (thorough: more); all traces must be identical to the reference, a sample of which TLC validates.",
+   note="Cannot show absence of an uninitialised read whose value never reaches an observable."),
+ "C12": dict(cat="exploration", tech="trace identity across a build matrix (hook H1) against a TLC-validated reference", ref="5 C12",
+   text="Every compile-time path is built through hook H1 ({64/32-bit} x {unaligned on/off} x {LE+V128+V256, LE+V128, LE, neutral} x {gcc, clang} x {-O0..-O3}: 128 builds thorough, 12-build pairwise cover quick) and runs the scenario sets of C01-C07, C10, C14 including reduced-round S-box sweeps; every execution must equal the shipped build's trace up to the back-end name; differing executions are validated by TLC to locate the fault.",
+   note="Big-endian and NEON hosts cannot be run; the neutral scalar path is exercised on this little-endian host as the property scopes it."),
+ "C13": dict(cat=MC, tech=TV, ref="5 C13",
+   text="MC_Probe.tla: CPU models x build configurations x caps x arbitrary sub-leaf register contents, probes and cascade as coded: widest supported back end, same every time, never beyond the CPU, psize = f(back end); the as-shipped probe (sub-leaf not set) must fail. On the code every init of all six kinds is observed in many calling contexts (garbage in caller-saved registers, painted stack, fresh processes whose very first library call is each init in turn, hook-free build) and compared by TLC with Widest(env) from the harness's own CPUID/XGETBV reading.",
+   note="Only this host's CPU is observable; lesser CPUs are emulated downward by hook H2. OS-YMM support is an explicit environment assumption of the model."),
+ "C18": dict(cat=MC, tech=TV, ref="5 C18",
+   text="MC_Threads.tla: all interleavings of 3 threads x 2 calls at footprint-step granularity: no write outside own objects, results = sequential; a static scratch buffer and an unsynchronised cached probe must fail. On the code 8-16 threads run the C01-C07/C10/C14 scenario sets concurrently on distinct objects (each per-thread trace must equal the TLC-validated sequential trace), 12-16 threads share read-only key schedules and parallel objects placed in PROT_READ memory (traces validated by TLC, any write is a crash event), and the guard-off library is required to have 0 bytes of .data/.bss.",
+   note="Real interleavings are sampled by repetition; happens-before race detection is not attempted (TSan/helgrind are a different technique family)."),
+ "C19": dict(cat=MC, tech="traces of the second implementation validated by TLC against the same TLA+ contract (ArduinoTrace.tla)", ref="5 C19",
+   text="The Arduino classes (11 block ciphers, CTR<T>) are compiled unmodified for the host and driven by the same scenario language; their traces (schedule images via opened-up private members, remembered tweaks, outputs) are validated by TLC against the same contract as the C library plus the Arduino-only clear() action, and additionally compared execution by execution with the C library's trace. Design models shared with the C code (MC_Tweak, MC_Mode, MC_Ctr with batch 1) are re-run.",
+   note="AVR inline assembly cannot be executed on the host. API used as the Cipher interface prescribes (setKey, setIV, then data; exact key sizes)."),
+ "C20": dict(cat="exploration", tech="tool runs validated by TLC against ToolsTrace.tla; MC_Tools design model", ref="5 C20",
+   text="MC_Tools.tla: option classifier = documented conditions over abstract argv; chunked loops = whole-file processing (a chunk size that is not a block multiple must fail). The three binaries built from the tree are run for both block sizes, every legal key length, counters/tweaks of lengths 1..bs with carries or absent, -d, file lengths around block and 1024-byte chunk edges; exit status, output existence and every output byte are validated by TLC against SkinnySpec (CTR stream law, ECB map, per-block tweak increment); round trips; 12 classes of invalid options per tool must exit non-zero without creating the output file.",
+   note="Short reads from fread() are not provoked; hex options are plain hex."),
+})
+
 PENDING = {}
 
 def main():
